@@ -136,6 +136,17 @@ func rawClusters(s string) []string {
 	return out
 }
 
+// splitsCluster mirrors window.go: does the last grapheme cluster of a continue into b?
+func splitsCluster(a, b string) bool {
+	var last string
+	state := -1
+	for len(a) > 0 {
+		last, a, _, state = uniseg.FirstGraphemeClusterInString(a, state)
+	}
+	cluster, _, _, _ := uniseg.FirstGraphemeClusterInString(last+b, -1)
+	return len(cluster) > len(last)
+}
+
 func clusterWidth(c string) int {
 	_, _, w, _ := uniseg.FirstGraphemeClusterInString(c, -1)
 	return w
@@ -184,6 +195,12 @@ func annotate(r *hx.Run, tc *tcase, lib *libT) string {
 			for len(rest) > 0 {
 				var ls string
 				ls, rest, _, lstate = uniseg.FirstLineSegmentInString(rest, lstate)
+				// as Wrap does since the F111c repair: a line segment does not end inside a cluster
+				for len(rest) > 0 && splitsCluster(ls, rest) {
+					var more string
+					more, rest, _, lstate = uniseg.FirstLineSegmentInString(rest, lstate)
+					ls += more
+				}
 				lsegs = append(lsegs, rawClusters(ls))
 			}
 		} else if sg.text != "" {
